@@ -115,7 +115,9 @@ CHECKS = {
                      "vertices) x vertex limits x precisions through Polygon::fracture, and x sorted cut lists through "
                      "slice(): vertex bound, tag/repetition/independent properties on every piece, exact-winding sample "
                      "oracle (covered by exactly one piece iff inside; bin i = polygon in strip i), area sum, termination "
-                     "(watchdog).",
+                     "(watchdog). Writer clause: a polygon, a non-simple flexible path and a non-simple robust path saved with "
+                     "write_gds(max_points) and re-loaded: every polygon in the file has at most that many vertices and the "
+                     "polygons partition each element's outline (same sample oracle).",
                 note="Trusted: geomkit exact predicates; 2-grid-unit guard band; large polygons use a deterministic subset of "
                      "sample candidates.",
                 technique="property-based testing (Hypothesis) with an exact point-membership partition oracle"),
